@@ -30,7 +30,7 @@ func NewModelMPT() *ModelMPT {
 }
 
 func (m *ModelMPT) SetNodeDB(ndb util.NodeDB)        {}
-func (m *ModelMPT) GetNodeDB() util.NodeDB           { return nil }
+func (m *ModelMPT) GetNodeDB() util.NodeDB           { return modelNodeDB{} }
 func (m *ModelMPT) SetVersion(v util.Sequence)       { m.version = v }
 func (m *ModelMPT) GetVersion() util.Sequence        { return m.version }
 func (m *ModelMPT) GetRoot() util.Key                { return util.Key("model-root") }
@@ -111,6 +111,32 @@ func (m *ModelMPT) MergeChanges(newRoot util.Key, changes []*util.NodeChange, de
 }
 func (m *ModelMPT) MergeDB(ndb util.NodeDB, root util.Key, deadNodes []util.Node) error {
 	panic("symstate: MergeDB unsupported")
+}
+
+// modelNodeDB satisfies util.NodeDB for code that only probes the root node.
+type modelNodeDB struct{}
+
+func (modelNodeDB) GetNode(key util.Key) (util.Node, error)       { return nil, nil }
+func (modelNodeDB) PutNode(key util.Key, node util.Node) error    { return nil }
+func (modelNodeDB) DeleteNode(key util.Key) error                 { return nil }
+func (modelNodeDB) Iterate(ctx context.Context, handler util.NodeDBIteratorHandler) error {
+	return nil
+}
+func (modelNodeDB) Size(ctx context.Context) int64                          { return 0 }
+func (modelNodeDB) MultiGetNode(keys []util.Key) ([]util.Node, error)       { return nil, nil }
+func (modelNodeDB) MultiPutNode(keys []util.Key, nodes []util.Node) error   { return nil }
+func (modelNodeDB) MultiDeleteNode(keys []util.Key) error                   { return nil }
+func (modelNodeDB) RecordDeadNodes([]util.Node, int64) error                { return nil }
+func (modelNodeDB) PruneBelowVersion(ctx context.Context, version int64) error { return nil }
+
+// ChildWithCache is the model counterpart of chain.CreateTxnMPT: a per-transaction copy
+// whose writes reach the parent only through MergeMPTChanges.
+func (m *ModelMPT) ChildWithCache(cache *statecache.TransactionCache) util.MerklePatriciaTrieI {
+	c := &ModelMPT{vals: map[string][]byte{}, cache: cache, version: m.version}
+	for k, v := range m.vals {
+		c.vals[k] = v
+	}
+	return c
 }
 
 // Child returns a copy-on-write style child (used for per-transaction overlays).
